@@ -432,7 +432,8 @@ def emit_contract_fixture(fx):
             out.append(decode_harness(fx, m.kind, msgp, bykind[m.kind], m, "c01_%s_decode_%s_%s" % (mod, m.kind, m.name), ["C01", "C04"] + p_extra, tier))
     for kind, ms in bykind.items():
         if kind in KIND_LIST:
-            out.append(list_harness(fx, kind, "sv::", ms, "c05_%s_list_%s" % (mod, kind), ["C05", "C03"] + p_extra, tier))
+            # the list obligations of a permuted twin are cheap (1 s) and are part of C14's quick tier
+            out.append(list_harness(fx, kind, "sv::", ms, "c05_%s_list_%s" % (mod, kind), (["C14"] if perm else ["C05", "C03"]), "quick" if perm else tier))
             if fx.get("names_known", True):
                 out.append(names_harnesses(fx, kind, "sv::%s" % KIND_MSG[kind], ms, "c01_%s_names_%s" % (mod, kind), ["C01", "C04"] + p_extra, tier))
     # C04: K1-only names into K2 message types (thorough: every ordered pair)
@@ -461,7 +462,7 @@ def emit_contract_fixture(fx):
                                      wrapper="sv::%s" % KIND_WRAP[m.kind], list_fn="%s::sv::%s" % (i["mod"], KIND_LIST[m.kind])))
             out.append(decode_harness(fx, m.kind, msgp, ib[m.kind], m, "c01_%s_decode_%s_%s_%s" % (mod, i["mod"], m.kind, m.name), ["C01", "C04"] + p_extra, "thorough"))
         for kind, ms in ib.items():
-            out.append(list_harness(fx, kind, "%s::sv::" % i["mod"], ms, "c05_%s_list_%s_%s" % (mod, i["mod"], kind), ["C05", "C03"] + p_extra, tier))
+            out.append(list_harness(fx, kind, "%s::sv::" % i["mod"], ms, "c05_%s_list_%s_%s" % (mod, i["mod"], kind), (["C14"] if perm else ["C05", "C03"]), "quick" if perm else tier))
             out.append(names_harnesses(fx, kind, "%s::sv::%s" % (i["mod"], KIND_MSG[kind]), ms, "c01_%s_names_%s_%s" % (mod, i["mod"], kind), ["C01", "C04"] + p_extra, "thorough"))
     # entry points: forwarding + T obligations
     if fx.get("entry_points"):
